@@ -156,6 +156,22 @@ theorem inv_step (s s' : Cl) (l : Label) (hi : Inv s) (hs : step s l = some s') 
         omega
       · intro h; exact absurd h hd
     · simp [hc] at hs
+  | sendAbort a =>
+    simp only [step] at hs
+    by_cases hc : a ∈ s.locked ∧ a ∈ s.abortable
+    · rw [if_pos hc] at hs
+      injection hs with hs; subst hs
+      have hd : ¬ s.drained = true := fun h => by rw [hdr h] at hc; simp at hc
+      refine ⟨?_, hi.fresh, ?_, hi.readerGone, hi.writerGone, hi.drainedIff, hi.finishedEmpty, hi.doneIff, hi.quitConn⟩
+      · intro id
+        have hp := hi.part id
+        rw [cnt_def] at hp ⊢
+        rw [ansIds_answer]; simp only [ansIds] at hp ⊢
+        have he := count_erase_add s.locked a id hc.1
+        simp only [answer, inWriter] at hp ⊢
+        omega
+      · intro h; exact absurd h hd
+    · simp [hc] at hs
   | wTake =>
     simp only [step] at hs
     cases hw : s.writer <;> simp only [hw] at hs <;> first | (cases hs; done) | skip
